@@ -54,6 +54,39 @@ def attribute(t, evn, idx, inv):
     return p
 
 
+def monitor_selftest(ctx, traces):
+    import copy
+    done = {"corrupt": False, "drop": False}
+    for t in traces:
+        evs = t["trace"]
+        takes = [i for i, e in enumerate(evs) if e.get("ev") == "Take"]
+        sends = [i for i, e in enumerate(evs) if e.get("ev") == "Send"]
+        if not takes or not sends or evs[-1].get("ev") != "End":
+            continue
+        variants = []
+        if not done["corrupt"]:
+            c = copy.deepcopy(evs)
+            c[sends[0]]["trunc"] = not c[sends[0]]["trunc"]
+            variants.append(("corrupt", c))
+        if not done["drop"]:
+            d = copy.deepcopy(evs)
+            del d[takes[0]]
+            variants.append(("drop", d))
+        for kind, v in variants:
+            path = os.path.join(ctx.out, "selftest-%s.ndjson" % kind)
+            with open(path, "w") as f:
+                for e in v:
+                    f.write(json.dumps(e) + "\n")
+            r = ctx.validate_trace("ChannelTrace", "ChannelTrace.cfg", path, label="selftest-" + kind)
+            if r.violated is None:
+                raise vlib.ToolError("monitor self-test: a trace with a %s event was accepted" % (
+                    "corrupted Send.trunc" if kind == "corrupt" else "removed Take"))
+            done[kind] = True
+        if all(done.values()):
+            break
+    ctx.cov["monitor_selftest"] = done
+
+
 def flush_trees(ctx):
     """Carry-through of a flush through destination combinators: spec/Flush.tla (M) and its
     cases replayed on the real And/Option/Box/Arc/&/erased/wrap/Runtime (G)."""
@@ -295,6 +328,10 @@ def run(ctx, prop):
             own += 1
         todo = todo[k + 1:]
     ctx.cov["level_a_traces_validated"] = nval
+    # demonstrate the binding on every run: an accepted trace with one corrupted field, and one
+    # with a hook event removed, must be rejected by the monitor
+    if not rejected and rc is None:
+        monitor_selftest(ctx, [t for t in all_traces if not t["hang"]])
     ctx.cov["traces_validated_against_impl"] += sum(1 for t in all_traces if t["config"] == "stress")
     for t, evn, idx, inv in rejected:
         p = attribute(t, evn, idx, inv)
